@@ -20,6 +20,7 @@ import (
 	"math/rand"
 	"net"
 	"net/http"
+	"os"
 	"strconv"
 	"strings"
 	"sync"
@@ -27,6 +28,7 @@ import (
 	"time"
 
 	"github.com/imroc/req/v3/internal/verifh"
+	"golang.org/x/net/http/httpguts"
 )
 
 // ---------------------------------------------------------------------------- scripted network
@@ -221,8 +223,10 @@ func c04sView(rt http.RoundTripper, q c04sReq) string {
 	}
 	var data []byte
 	end := ""
-	if _, writable := resp.Body.(io.Writer); writable {
-		// protocol switch: the body is the connection
+	if resp.StatusCode == 101 && resp.Header.Get("Upgrade") != "" && httpguts.HeaderValuesContainsToken(resp.Header["Connection"], "Upgrade") {
+		// protocol switch: the body is the connection. (Recognised by status and headers, not by
+		// resp.Body.(io.Writer): with response-body dump on the fork wraps the body and the
+		// writer side is lost — a dump-transparency matter, C13's, not judged here.)
 		data = make([]byte, q.rawN)
 		n, _ := io.ReadFull(resp.Body, data)
 		data = data[:n]
@@ -268,9 +272,14 @@ func c04sView(rt http.RoundTripper, q c04sReq) string {
 }
 
 // c04sRun performs the whole sequence through rt.
-func c04sRun(rt http.RoundTripper, reqs []c04sReq, nw *c04sNet) string {
+// pause: wait before every request after the first (only used when a disagreement is re-run: it
+// lets the read loop finish its unsolicited-bytes check before the caller comes back).
+func c04sRun(rt http.RoundTripper, reqs []c04sReq, nw *c04sNet, pause time.Duration) string {
 	var views []string
-	for _, q := range reqs {
+	for i, q := range reqs {
+		if i > 0 && pause > 0 {
+			time.Sleep(pause)
+		}
 		ch := make(chan string, 1)
 		q := q
 		go func() { ch <- c04sView(rt, q) }()
@@ -732,21 +741,32 @@ func (c c04sCase) human() string {
 	return sb.String()
 }
 
-func c04sRunBoth(c c04sCase) (fork, ref string) {
-	mk := func() *c04sNet { return &c04sNet{scripts: c.scripts, max: c.max} }
-	nwF := mk()
+// c04sRunFork: the fork's Transport; dumpOn: everything (request and response, headers and
+// bodies) is dumped to a discarding writer — the property quantifies over dump on/off.
+func c04sRunFork(c c04sCase, dumpOn bool, pause time.Duration) string {
+	nwF := &c04sNet{scripts: c.scripts, max: c.max}
 	tr := T()
 	tr.DialContext = nwF.dial
 	tr.DisableCompression = true
 	tr.DisableAutoDecode()
 	tr.ReadBufferSize = c.B
-	fork = c04sRun(tr, c.reqs, nwF)
+	if dumpOn {
+		tr.EnableDump(&DumpOptions{Output: io.Discard, RequestHeader: true, RequestBody: true, ResponseHeader: true, ResponseBody: true})
+		defer tr.DisableDump()
+	}
+	fork := c04sRun(tr, c.reqs, nwF, pause)
 	tr.CloseIdleConnections()
 	nwF.closeAll()
+	return fork
+}
+
+func c04sRunBoth(c c04sCase, pause time.Duration) (fork, ref string) {
+	mk := func() *c04sNet { return &c04sNet{scripts: c.scripts, max: c.max} }
+	fork = c04sRunFork(c, false, pause)
 	nwR := mk()
 	rt := &http.Transport{DialContext: func(ctx context.Context, network, addr string) (net.Conn, error) { return nwR.dial(ctx, network, addr) },
 		DisableCompression: true, ReadBufferSize: c.B, ExpectContinueTimeout: time.Second}
-	ref = c04sRun(rt, c.reqs, nwR)
+	ref = c04sRun(rt, c.reqs, nwR, pause)
 	rt.CloseIdleConnections()
 	nwR.closeAll()
 	return
@@ -760,7 +780,7 @@ func TestVerif_C04_connseq(t *testing.T) {
 			"200/201/404/500/204/304/205, terminal 101 without and with Upgrade (raw bytes after the switch), statuses below 100, HTTP/1.0/1.1/1.2/2.0, Connection close/keep-alive variants, duplicate Content-Length, "+
 			"bursts of 1..6 informational responses (100/102/103/199, with framing headers), 100 Continue for Expect; unsolicited bytes behind a complete message (a whole response, a partial head, junk, a 408); "+
 			"the hostile byte-level grammar of the ref lane (cut, mutated) as the last message of a connection; peer closing an idle connection when the next request arrives. "+
-			"Model-judged (c04conn = transportRun): full per-request view + dial count; second opinion fork == reference. non-trivial = at least two requests got a response")
+			"every third sequence also with the fork dumping everything (dump on must not change what is observed). Model-judged (c04conn = transportRun): full per-request view + dial count; second opinion fork == reference. non-trivial = at least two requests got a response")
 	r := s.Rand()
 	g := &c04Gen{r: r}
 	n := verifh.N(2500, 25000)
@@ -772,12 +792,33 @@ func TestVerif_C04_connseq(t *testing.T) {
 	for i := 0; i < n && hangs < 4; i++ {
 		c := c04sGenCase(r, g)
 		s.Begin(c.line(), c.human())
-		fork, ref := c04sRunBoth(c)
-		if fork != ref && !strings.Contains(fork+ref, "hang") {
-			// the unsolicited-bytes check is a race between the read loop and the caller's next
-			// request in BOTH transports; a disagreement must reproduce to count
+		fork, ref := c04sRunBoth(c, 0)
+		// The unsolicited-bytes check is a race between the read loop and the caller's next
+		// request in BOTH transports (lost about once in 2500 sequences on an idle machine, more
+		// often under load; a lost race can also derail the rest of the sequence into a stall).
+		// A disagreement must reproduce, with the caller pausing between requests, to count.
+		for _, pause := range []time.Duration{2 * time.Millisecond, 20 * time.Millisecond} {
+			if fork == ref || hangs >= 4 {
+				break
+			}
 			cnt("rerun-after-disagreement")
-			fork, ref = c04sRunBoth(c)
+			fork, ref = c04sRunBoth(c, pause)
+		}
+		dumpNote := ""
+		if i%3 == 0 && !strings.Contains(fork+ref, "hang") {
+			// the same sequence with dump on must be observed identically
+			cnt("dump-on-run")
+			fd := c04sRunFork(c, true, 0)
+			for _, pause := range []time.Duration{2 * time.Millisecond, 20 * time.Millisecond} {
+				if fd == fork {
+					break
+				}
+				cnt("rerun-after-disagreement")
+				fd = c04sRunFork(c, true, pause)
+			}
+			if fd != fork {
+				dumpNote = " BUT with dump on the fork: " + c04Short(fd)
+			}
 		}
 		for _, tg := range c.tags {
 			cnt("gen:" + tg)
@@ -801,14 +842,72 @@ func TestVerif_C04_connseq(t *testing.T) {
 		if fork != ref {
 			human += " BUT reference: " + c04Short(ref)
 		}
-		s.Case(c.line(), fork, fork == ref, "", nOK >= 2, human)
+		human += dumpNote
+		s.Case(c.line(), fork, fork == ref && dumpNote == "", "", nOK >= 2, human)
 	}
 	s.Finish()
 	for _, need := range []string{"gen:101-plain", "gen:101-upgrade", "gen:status<100", "gen:1.0", "gen:1.0-keep-alive", "gen:conn-close", "gen:chunked", "gen:trailer", "gen:HEAD",
 		"gen:1xx-burst", "gen:1xx-too-many", "gen:100-continue", "gen:unsolicited", "gen:switch-raw-bytes", "gen:hostile", "gen:idle-closed", "gen:early-close", "gen:partial-read", "gen:req-close",
-		"gen:until-close", "gen:msg-then-eof", "gen:split-early", "gen:split-at-head", "dials=1", "dials=2", "dials=3", "view:end=eof", "view:end=err", "view:end=closed", "view:raw", "view:fail"} {
+		"gen:until-close", "gen:msg-then-eof", "gen:split-early", "gen:split-at-head", "dump-on-run", "dials=1", "dials=2", "dials=3", "view:end=eof", "view:end=err", "view:end=closed", "view:raw", "view:fail"} {
 		if reached[need] == 0 {
 			t.Errorf("C04/connseq never reached %q", need)
+		}
+	}
+}
+
+// TestVerifDbg_C04_connseq re-runs ONE sequence (VERIF_DBG_CONN = the `c04conn …` case line of a
+// replay; VERIF_DBG_MAX = cap of connection reads, VERIF_DBG_N = repetitions) through both
+// transports and prints how often each answer was observed — handy when reading a replay and for
+// telling a deterministic difference from the unsolicited-bytes race.
+func TestVerifDbg_C04_connseq(t *testing.T) {
+	line := os.Getenv("VERIF_DBG_CONN")
+	if line == "" {
+		t.Skip()
+	}
+	f := strings.Fields(line)
+	if len(f) != 4 || f[0] != "c04conn" {
+		t.Fatalf("want: c04conn <B> <reqs> <scripts>")
+	}
+	var c c04sCase
+	c.B, _ = strconv.Atoi(f[1])
+	c.max, _ = strconv.Atoi(os.Getenv("VERIF_DBG_MAX"))
+	for _, tok := range strings.Split(f[2], ",") {
+		q := c04sReq{method: "GET", part: -1, readSize: 512}
+		if tok[0] == 'H' {
+			q.method = "HEAD"
+		}
+		q.close = tok[1] == 'c'
+		if tok[2] == 'e' {
+			q.method = "POST"
+		}
+		if tok[3] == 'P' {
+			q.part, _ = strconv.Atoi(tok[4:])
+		}
+		q.rawN, _ = strconv.Atoi(os.Getenv("VERIF_DBG_RAWN"))
+		c.reqs = append(c.reqs, q)
+	}
+	for _, sc := range strings.Split(f[3], "|") {
+		p := strings.SplitN(sc, ":", 2)
+		c.scripts = append(c.scripts, c04sScript{segs: verifh.UnHexList(p[1]), eof: p[0] == "E"})
+	}
+	n, _ := strconv.Atoi(os.Getenv("VERIF_DBG_N"))
+	if n == 0 {
+		n = 1
+	}
+	log.SetOutput(io.Discard)
+	hf, hr, hd := map[string]int{}, map[string]int{}, map[string]int{}
+	for i := 0; i < n; i++ {
+		fork, ref := c04sRunBoth(c, 0)
+		hf[fork]++
+		hr[ref]++
+		hd[c04sRunFork(c, true, 0)]++
+	}
+	for _, x := range []struct {
+		n string
+		h map[string]int
+	}{{"fork", hf}, {"fork+dump", hd}, {"reference", hr}} {
+		for a, k := range x.h {
+			t.Logf("%s x%d: %s", x.n, k, a)
 		}
 	}
 }
